@@ -108,6 +108,12 @@ def main():
                 report[name] = {"error": "patch does not apply", "target": target}
                 continue
             entry = {"target": target, "results": {}, "detected_by": []}
+            if name in report and isinstance(report[name].get("results"), dict) and (only or checks):
+                # partial re-run: keep earlier results of checks not re-run now
+                entry["results"] = dict(report[name]["results"])
+                for k in ("baseline", "baseline_ok"):
+                    if k in report[name]:
+                        entry[k] = report[name][k]
             try:
                 if baseline:
                     rc, out = sh("cargo test --offline 2>&1 | grep -E '^test result' | head -1", cwd=REPO)
@@ -128,6 +134,7 @@ def main():
                         entry["detected_by"].append(c)
                     if rc not in (0, 1):
                         entry["results"][c]["output_tail"] = out[-600:]
+                entry["detected_by"] = sorted(c for c, r in entry["results"].items() if r.get("exit") == 1 and r.get("violation"))
                 entry["target_detected"] = (target in entry["detected_by"]) if target else None
                 print(f"{name}: target={target} detected_by={entry['detected_by']} target_detected={entry['target_detected']}")
             finally:
@@ -142,6 +149,8 @@ def main():
         if scratch:
             sh(f"git -C /repo worktree remove --force {REPO}")
             sh(f"rm -rf {scratch_root}")
+    existing = set(os.path.basename(os.path.dirname(p)) if p.endswith("patch.diff") else os.path.basename(p)[:-6] for p in (sorted(glob.glob(f"{VERIF}/seeded/*/patch.diff")) + sorted(glob.glob(f"{VERIF}/mutants/*.patch"))))
+    report = {k: v for k, v in report.items() if k in existing}
     json.dump({"generated_by": "tools/audit.py", "tier": tier, "patches": report}, open(report_path, "w"), indent=1)
     missed = [n for n, e in report.items() if e.get("target_detected") is False]
     print(f"audited {len(report)} patches; target property missed for: {missed}")
